@@ -81,6 +81,20 @@ func ringLayout(r *RingBuffer[int]) string {
 
 // runRingCase executes one case on the real RingBuffer, logs it, and checks the queue oracle.
 func runRingCase(id int, c ringCase, lg *vlog, rep *vreport, logEvery int) (nontrivial bool) {
+	defer func() {
+		// a queue never panics, whatever the layout: the case is the replay
+		if p := recover(); p != nil {
+			ops := []string{}
+			for _, o := range c.ops {
+				ops = append(ops, o.String())
+			}
+			rep.violate("ring:panic", fmt.Sprintf("RingBuffer panicked on a sequence of queue operations: %v", p),
+				map[string]any{"cap": c.cap, "head": c.head, "n": c.n, "ops": ops})
+			if lg != nil {
+				lg.printf("E\n")
+			}
+		}
+	}()
 	r := &RingBuffer[int]{head: c.head, tail: (c.head + c.n) % c.cap, elements: make([]int, c.cap)}
 	q := &sliceQueue{}
 	next := 1000
